@@ -98,7 +98,46 @@ func corpus() []Case {
 		}
 		out = append(out, Case{Kind: "timing", Name: "bounds", Epoch: e, Recs: h.recs, Qs: q})
 	}
+	out = append(out, consumersCorpus()...)
 	return out
+}
+
+var kindPatterns = [][]int{{1, 2, 2, 0, 2, 1, 2}, {0, 1, 2}, {2, 1}, {1, 1, 2, 2, 2, 2, 2, 2}, {2, 2, 2}, {0}}
+
+// elections of every operation on several days, all after the last record
+func consumerQueries(epoch uint64, day uint64) []Q {
+	var q []Q
+	for d := uint64(0); d < 4; d++ {
+		for _, op := range validOps {
+			q = append(q, Q{Op: op, Now: epoch + (day+d)*Day + (7+3*d)*Hour + d})
+		}
+	}
+	return q
+}
+
+func consumersCorpus() []Case {
+	var out []Case
+	for i, n := range []int{7, 8, 9, 12, 23, 50} {
+		h := membership(n, EpochMain)
+		for j := 0; j < 2; j++ {
+			out = append(out, Case{Kind: "consumers", Name: "sizes", Epoch: EpochMain, Mainnet: i%2 == 0, Recs: h.recs,
+				Kinds: kindPatterns[(i+3*j)%len(kindPatterns)], Qs: consumerQueries(EpochMain, 40+uint64(i))})
+		}
+	}
+	return out
+}
+
+// consumersFrom turns a random history into a consumers case
+func consumersFrom(r *vh.Rand, cs Case) Case {
+	var last uint64
+	for _, rec := range cs.Recs {
+		if rec.Ts > last {
+			last = rec.Ts
+		}
+	}
+	day := (last-cs.Epoch)/Day + 2
+	return Case{Kind: "consumers", Name: "random", Epoch: cs.Epoch, Mainnet: cs.Mainnet, Recs: cs.Recs,
+		Kinds: kindPatterns[r.Intn(len(kindPatterns))], Qs: consumerQueries(cs.Epoch, day)}
 }
 
 func sweep(c *vh.Ctx) []Case {
